@@ -42,6 +42,17 @@ INVALID_TEXTS = [
 
 # ---- inputs ------------------------------------------------------------------------------------------
 
+# multi-line strings in every position a parameter can be printed from (plain op, switch header op, case menu, message
+# switch cases), at several nesting depths: what a printer's scratch state (indent) would show up in
+STRINGY_SRC = (
+    "def 0 {\n    say({english='one\\ntwo', german='eins'}, 'a\\nb');\n"
+    "    switch (message_SwitchMenu2(Position<'m', 1, 2>, {english='head\\nline'})) {\n"
+    "        case menu({english='yes\\nplease'}):\n            if ($A == 1) {\n                deep('x\\ny', {english='d1\\nd2'});\n            }\n            break;\n"
+    "        case menu('no\\nthanks'):\n            hold;\n    }\n"
+    "    message_SwitchTalk ($T) {\n        case 1:\n            {english='m1\\nm2'}\n        default:\n            'p\\nq'\n    }\n"
+    "    switch (ProcessSpecial(1, 'sp\\nec')) {\n        case 1:\n            end;\n    }\n    end;\n}\n"
+)
+
 LOOP_FAMILY_SRC = [
     "def 0 {\n    start(0);\n    if ($C == 1) {\n        x(1);\n    }\n    mid(1);\n    forever {\n        d(1);\n        if ($Z == 2) {\n            break_loop;\n        }\n        e(2);\n    }\n    fin(9);\n    end;\n}\n",
     "def 0 {\n    start(0);\n    if ($C == 1) {\n        jump @out;\n    }\n    mid(1);\n    forever {\n        d(1);\n        if ($Z == 2) {\n            break_loop;\n        }\n        e(2);\n    }\n    nop(0);\n    @out;\n    fin(9);\n    end;\n}\n",
@@ -126,6 +137,9 @@ def make_pool(pool_seed: int, sizes=("small", "small", "medium", "medium", "larg
                 fam.append(len(docs))
                 docs.append(sib)
         families.append(fam)
+    o = sut.compile_exps(STRINGY_SRC)
+    if "ok" in o:
+        docs.append({"routines": o["ok"]["routines"]})
     fam = []
     for d in ssb.second_entry_family():
         fam.append(len(docs))
@@ -651,6 +665,12 @@ def run_item(item: dict) -> dict:
         if srng.random() < 0.3:
             ops[1:1] = [{"k": "X", "kind": "return", "exc": "KeyboardInterrupt", "frac": srng.random()}]
         hists.append((seeds.H(pool_seed, "sweep", a, b), ops))
+    # "the same input repeated": the very same op objects decompiled again, by the same or by the other decompiler
+    rdocs = list(range(len(pool["docs"])))
+    srng.shuffle(rdocs)
+    for j in rdocs[: item.get("repeat_docs", 6)]:
+        a, b = srng.choice([("D", "D"), ("S", "D"), ("D", "S"), ("S", "D")])
+        hists.append((seeds.H(pool_seed, "repeat", j), [{"k": a, "j": j, "share": True}, {"k": b, "j": j, "share": True}, {"k": "D", "j": j, "share": True}]))
     refs = {}
     counts = {}
     for hs, ops in hists:
